@@ -13,8 +13,12 @@ _PRISTINE = None
 
 
 def num(v):
-    """case value -> Python number (None = NaN)"""
-    return NAN if v is None else v
+    """case value -> Python number (None = NaN; the strings "inf" / "-inf" of the 'inff' stream = the infinities)"""
+    return NAN if v is None else (float(v) if isinstance(v, str) else v)
+
+
+def finite(v):
+    return v is not None and not isinstance(v, str)
 
 
 def canon(x):
@@ -142,19 +146,51 @@ def mean_oracle(w, v, fb):
     return out
 
 
-def check_signal(w, v, fb, got, what, skip_undefined=False):
+REL_TOL = 1e-12      # float rounding of a weighted mean of at most a few hundred terms, relative to the largest sample of the window
+ABS_FLOOR = 1e-300   # products of a weight and a sample below the normal range of doubles
+
+
+def local_tol(terms):
+    """the tolerance on the weighted mean of ONE window: float arithmetic computes sum(w*x)/sum(w) over the window's
+    own samples with an error of a few ulps of the largest |x| carrying a positive weight, whatever the values elsewhere
+    in the signal are (the statement ties every output to the inputs of its own window only)"""
+    mags = [abs(float(x)) for wt, x in terms if wt > 0]
+    return REL_TOL * max(mags + [0.0]) + ABS_FLOOR
+
+
+def check_nonfinite(w, v, fb, got, what):
+    """a signal holding +inf / -inf samples (strings in the case): a window that holds one has no weighted mean in the reals
+    and nothing is demanded there (the code returns inf, or NaN for inf - inf and 0 * inf); every other output is the mean
+    of its own finite window; a copied boundary value is returned unchanged, infinite or not"""
+    n, D = len(v), len(w) // 2
+    if not isinstance(got, list) or len(got) != n:
+        return "%s: output has %s values for %d inputs" % (what, len(got) if isinstance(got, list) else got, n)
+    skip = set()
+    for i in range(n):
+        if not fb and (i < D or i >= n - D):
+            if isinstance(v[i], str):
+                if got[i] != float(v[i]):
+                    return "%s: output[%d] = %r, the unfiltered boundary value is %s" % (what, i, got[i], v[i])
+                skip.add(i)
+        elif any(isinstance(x, str) for _, x in window_terms(w, v, i)):
+            skip.add(i)
+    return check_signal(w, [0 if isinstance(x, str) else x for x in v], fb, got, what, skip=skip, const_check=False)
+
+
+def check_signal(w, v, fb, got, what, skip_undefined=False, skip=(), const_check=True):
     """compare an output signal of the implementation with the property (mean, bounds, constants, boundary);
-    skip_undefined: an index whose valid weights sum to 0 has no weighted mean — nothing is demanded there"""
+    skip_undefined: an index whose valid weights sum to 0 has no weighted mean — nothing is demanded there.
+    Tolerances are local to the window of the index (local_tol); a copied boundary value is compared exactly"""
     n, D = len(v), len(w) // 2
     if not isinstance(got, list) or len(got) != n:
         return "%s: output has %s values for %d inputs" % (what, len(got) if isinstance(got, list) else got, n)
     want = mean_oracle(w, v, fb)
     valid = [x for x in v if x is not None]
-    scale = max([1.0] + [abs(float(x)) for x in valid])
-    tol = 1e-9 * scale
-    const = len(set(valid)) == 1
+    const = const_check and len(set(valid)) == 1
     for i in range(n):
         e, g = want[i], got[i]
+        if i in skip:
+            continue
         if e == "undefined":
             if skip_undefined:
                 continue
@@ -165,13 +201,20 @@ def check_signal(w, v, fb, got, what, skip_undefined=False):
             continue
         if g is None:
             return "%s: output[%d] is NaN, the weighted mean of the window is %s" % (what, i, float(e))
+        if math.isinf(g):
+            return "%s: output[%d] is %r, the weighted mean of the window is %s" % (what, i, g, float(e))
+        copied = (not fb and (i < D or i >= n - D))
+        if copied:
+            if Fraction(g) != e:
+                return "%s: output[%d] = %r, the unfiltered boundary value is %r" % (what, i, g, float(e))
+            continue
+        terms = window_terms(w, v, i)
+        tol = local_tol(terms)
         if abs(Fraction(g) - e) > tol:
-            copied = (not fb and (i < D or i >= n - D))
-            return "%s: output[%d] = %r, %s is %r" % (what, i, g, "the unfiltered boundary value" if copied else "the renormalised weighted mean of the window", float(e))
-        if not (not fb and (i < D or i >= n - D)):
-            vals = [t[1] for t in window_terms(w, v, i)]
-            if g < min(vals) - tol or g > max(vals) + tol:
-                return "%s: output[%d] = %r leaves the range [%r, %r] of its window" % (what, i, g, min(vals), max(vals))
+            return "%s: output[%d] = %r, the renormalised weighted mean of the window is %r" % (what, i, g, float(e))
+        vals = [t[1] for t in terms]
+        if g < min(vals) - tol or g > max(vals) + tol:
+            return "%s: output[%d] = %r leaves the range [%r, %r] of its window" % (what, i, g, min(vals), max(vals))
         if const and abs(g - valid[0]) > tol:
             return "%s: constant signal %r changed to %r at index %d" % (what, valid[0], g, i)
     return None
@@ -243,13 +286,21 @@ class P(Prop):
         (M, "TV.C15.inDomain_normalise", "the domain does not depend on the scale of a weight list (it holds for the list normalised in place)"),
         (M, "TV.C15.filterSeq_twice", "filter_seq called twice on the same track with the same kernel object: mean signals, then mean signals of the mean signals under the same window (temp left by the first call and the in-place normalisation do not matter)"),
         (M, "TV.C15.number_kernel_refused", "a float given as kernel (documented for filter_seq) is refused with a TypeError in the kernel preparation: filter_seq fails at the first dimension, operate always; never a value"),
+        (M, "TV.C15.algebraic_is_mean", "T1 for the algebraic form track.operate(\"out = in ! w\") / \"out = in .* w\" / \"in ! w\": out (feature or coordinate) becomes — or the call returns — the mean signal of `in` under the weights held by `w`; the temporary features are gone, nothing else changes"),
+        (M, "TV.C15.filter_local", "locality, for ANY scalar type (no law of arithmetic used: IEEE doubles included): two signals of one length agreeing within D of i get the same out[i] from Filter.execute, bit for bit"),
+        (M, "TV.C15.filter_far_sample", "replacing a sample further than D from i by any value (an outlier of another order of magnitude) leaves out[i] as it is — any scalar type"),
+        (M, "TV.C15.execute_local", "locality for Filter.execute as a whole (list normalised in place / Kernel object / Dirac): the kernel preparation does not look at the signal"),
+        (M, "TV.C15.filter_local_float", "filter_local instantiated at the IEEE doubles of the Lean runtime (the scalar type of the float streams)"),
         (M, "TV.C15.zero_norm_fails", "outside the domain (a zero norm) the method fails with a division by zero for a Kernel object, never a wrong value"),
     ]
     partial = []
-    open_statements = ["theorems are over a linearly ordered field: IEEE rounding of the float computation is outside them (sampled by the transfer check at 1e-9)",
+    open_statements = ["theorems are over a linearly ordered field: IEEE rounding of the float computation is outside them, except locality (filter_local, filter_far_sample, "
+                       "execute_local hold for any scalar type, IEEE doubles included: out[i] is a function of the kernel and of the samples of its own window); how far the float "
+                       "weighted mean of those samples is from the exact one is sampled by the transfer check at 1e-12 of the largest weighted sample of the window",
                        "math.exp is a parameter of the Gaussian / Exponential kernel functions: exp_kernel_windows / smooth_gaussian assume it returns positive numbers "
                        "(true of libm on the sampled range, not proved); closed-form user functions are a function parameter tabulated by Python, "
                        "window_shape / window_of_nonneg_kernel apply to them under the stated hypotheses (even, non-negative at the sample points, positive at one)",
+                       "a window that holds an infinite sample has no weighted mean in the reals: the model (Float) is compared with the code there (inf, NaN for inf - inf and 0 * inf), nothing is judged",
                        "a weight list whose total sum is 0, weights that are NaN (a feature-name kernel over a feature with NaN) or negative are not modelled (numpy yields nan/inf)",
                        "values read back as numpy scalars by a later call on the same track change ZeroDivisionError into nan outside the domain: sessions use one track per call, "
                        "and the same track is filtered twice only when both passes are in the domain",
@@ -261,6 +312,8 @@ class P(Prop):
                 "on a track shorter than the half window), "
                 "Track.operate(Operator.FILTER, arg1, kernel[, arg3]) with createAnalyticalFeature (reserved names, empty track, new output feature), output name omitted, "
                 "lists of input / output names (one call per pair with the same kernel object, lengths compared), "
+                "the algebraic form track.operate(\"out = in ! w\") / \"out = in .* w\" / \"in ! w\" for two names of the track (FILTER into the temporary feature #0, assignment to a "
+                "new / an existing feature or to a coordinate, removal of the #-features; the parsing of the expression itself is C02's model), "
                 "Kernel.evaluate and Kernel.toSlidingWindow (zero sum included), the kernel functions of Uniform/Triangular/Epanechnikov/Cubic/Spheric kernels (math.pow with "
                 "integer exponents as products) and of Gaussian/Exponential kernels (math.exp, math.sqrt(2*math.pi) as parameters: Float.exp / Float.sqrt in the driver), "
                 "user-defined kernels given by a table of values (closed-form user functions are a function parameter tabulated by Python), "
@@ -272,12 +325,16 @@ class P(Prop):
                "math.pow(a, n) for n = 2, 3, 5, 7 is modelled as a product (exact over the rationals, compared at 1e-9 with floats)",
                "np.sum is modelled as a left-to-right sum; int(support) as floor"]
     rule = ("signals random-integer / dyadic / float / constant / monotone, with isolated NaN, length window..window+12, and (about one case in seven, every API) shorter than the "
-            "window: 1..window-1, below and above the half window; kernels: odd weight "
-            "lists with positive weights (symmetric and asymmetric, integer/dyadic/decimal), integers (filter_seq, incl. the default kernel), the built-in "
+            "window: 1..window-1, below and above the half window; about one signal in four (every API and stream) holds samples of very different orders of magnitude: one or two "
+            "samples of 1e6..3e20 (one sign per signal) at the first valid index / anywhere / at the last valid index among small values or a constant stretch, every sample at its own "
+            "scale 1e-6..1e13, or a large common offset with metre-level variations (tag dynamic_range); every output is judged with a tolerance local to its own window "
+            "(1e-12 of the largest sample carrying a positive weight; a copied boundary value exactly); kernels: odd weight "
+            "lists with positive weights (symmetric and asymmetric, integer/dyadic/decimal, or every weight at its own scale 1e-6..1e7), integers (filter_seq, incl. the default kernel), the built-in "
             "non-negative kernels Uniform/Triangular/Epanechnikov/Gaussian/Exponential/Cubic/Spheric/Dirac with widths 1..5, boundary and "
             "non-integer widths, user-defined kernels (Kernel + setFunction) returning Python ints / floats / bools / numpy scalars from a table or a closed form "
             "(0 at the support edge or not), filterBoundary set to True / False / never set; features via track.operate(FILTER) incl. output into an existing / the same / a new feature / "
-            "output name omitted, lists of names (in place, fresh outputs; overlapping / repeated / mismatched lists for correspondence) "
+            "output name omitted, the algebraic forms \"out = in ! w\" / \"out = in .* w\" (out a new / an existing feature / the input / a coordinate) and \"in ! w\" (values returned), "
+            "lists of names (in place, fresh outputs; overlapping / repeated / mismatched lists for correspondence) "
             "and kernels given as feature names, x/y/z and features via filter_seq with dim omitted / a module constant / a list / a str, once or twice on the same track with the same kernel object, "
             "Track.smooth (width given or omitted), Kernel.toSlidingWindow; sessions of 2-4 calls (filter_seq, Track.smooth, filter_freq) in one process on different tracks, some with an all-NaN "
             "coordinate or no observation, the module constants and Kernel class attributes being read after every call. All signals over {0,1,NaN} up to length 6 (quick) / 7 (thorough) "
@@ -286,7 +343,8 @@ class P(Prop):
             "copied; the IndexError of the boundary copy below the half window is not judged. Cases outside the "
             "property's domain are kept in correspondence-only streams: 'zeronorm' (a window without valid weight), "
             "'badk' (even / empty windows, support < 1, zero-sum kernels, a float kernel, reserved or unknown names, empty tracks); "
-            "'zerow' (weight lists with zero weights) is judged at the indices whose valid weights have a positive sum. non-trivial = window of "
+            "'zerow' (weight lists with zero weights) is judged at the indices whose valid weights have a positive sum; 'inff' (float signals holding +inf / -inf samples, "
+            "first valid / anywhere / both signs) is judged at the windows that hold no infinite sample and at the copied boundary values. non-trivial = window of "
             "at least 3 weights and a non-constant signal (or a sliding-window case)")
 
     def setup(self):
@@ -353,8 +411,11 @@ class P(Prop):
     def rand_weights(self, rng):
         D = rng.choice([0, 1, 1, 1, 2, 2, 3, 4])
         N = 2 * D + 1
-        style = rng.choice(["int", "int", "dyadic", "sym", "decimal", "ones"])
-        if style == "int":
+        style = rng.choice(["int", "int", "dyadic", "sym", "decimal", "ones", "scales"])
+        if style == "scales":
+            # weights of very different orders of magnitude: none of them may be dropped or flushed
+            w = [round(rng.uniform(1, 10), 2) * 10.0 ** rng.randrange(-6, 7) for _ in range(N)]
+        elif style == "int":
             w = [rng.randrange(1, 9) for _ in range(N)]
         elif style == "dyadic":
             w = [rng.randrange(1, 33) / 8 for _ in range(N)]
@@ -415,15 +476,28 @@ class P(Prop):
         p = rng.choice(self.WIDTHS) if rng.random() < 0.85 else rng.choice(self.BOUNDARY_WIDTHS[t])
         return {"t": t, "p": p, "fb": self.rand_fb(rng)}
 
+    # orders of magnitude met in one feature: a raw epoch / a sentinel / an accumulated quantity next to increments
+    OUTLIERS = [1.0e6, 6861234.75, 1.7e9, 4.0e12, 1.0e16, 1.0e20]
+
     def rand_signal(self, rng, n, style=None, nan=True, floats=False):
-        style = style or rng.choice(["int", "int", "const", "mono", "dyadic", "float" if floats else "int", "spike"])
+        style = style or rng.choice(["int", "int", "const", "mono", "dyadic", "float" if floats else "int", "spike",
+                                     "outlier", "scales" if floats else "outlier", "offset" if floats else "int"])
         if n == 0:
             return []
+        outlier = None
+        if style == "outlier":
+            # samples of very different orders of magnitude in ONE signal: a window that does not hold the large sample is
+            # still the mean of its own (small) samples. All large samples of a signal have the same sign (no cancellation
+            # between them: the model's weights may differ from the implementation's in the last bit)
+            outlier = rng.choice([1, 1, -1]) * rng.choice(self.OUTLIERS)
+            style = rng.choice(["tenth", "const", "int", "float" if floats else "dyadic", "dyadic"])
         if style == "int":
             v = [rng.randrange(-50, 51) for _ in range(n)]
         elif style == "const":
-            c = rng.choice([0, 1, -3, 7, 2.5, 1000])
+            c = rng.choice([0, 1, -3, 7, 2.5, 1000] + ([0.1] if outlier is not None else []))
             v = [c] * n
+        elif style == "tenth":
+            v = [rng.choice([0.1, 0.1, 0.1, 0.3, 25.013]) for _ in range(n)]
         elif style == "mono":
             x = rng.randrange(-20, 20)
             v = []
@@ -436,6 +510,14 @@ class P(Prop):
             v = [rng.randrange(-400, 401) / 8 for _ in range(n)]
         elif style == "float":
             v = [round(rng.uniform(-1000, 1000), 3) for _ in range(n)]
+        elif style == "scales":
+            # every sample at its own order of magnitude, one sign for the whole signal
+            sg = rng.choice([1, -1])
+            v = [sg * round(rng.uniform(1, 10), 3) * 10.0 ** rng.randrange(-6, 13) for _ in range(n)]
+        elif style == "offset":
+            # projected coordinates: a large common part, variations of a few metres
+            base = rng.choice([651234.25, 6861234.75, -12345.5, 1.6e9])
+            v = [base + round(rng.gauss(0, 3), 3) for _ in range(n)]
         else:
             v = [0] * n
             v[rng.randrange(n)] = rng.choice([1, 64, -8])
@@ -445,6 +527,13 @@ class P(Prop):
             while i < n:
                 v[i] = None
                 i += rng.randrange(2, 7)
+        if outlier is not None:
+            valid = [i for i in range(n) if v[i] is not None]
+            if valid:
+                where = rng.choice(["first", "first", "first", "any", "last", "two"])
+                at = {"first": valid[:1], "any": [rng.choice(valid)], "last": valid[-1:], "two": [valid[0], rng.choice(valid)]}[where]
+                for i in at:
+                    v[i] = float(outlier) * rng.choice([1, 1, 1.25, 3])
         return v
 
     def rand_dim(self, rng, names):
@@ -640,6 +729,32 @@ class P(Prop):
                     sc = "f"
                 st.pop("sc", None)
             out.append({"kind": "session", "steps": steps, "sc": sc, "prebuild": rng.random() < 0.5})
+        # ---- infinite samples (a speed d/0 computed with numpy, a sentinel): the windows that hold none are judged
+        made = 0
+        while made < (200 if quick else 2500):
+            k = self.rand_kernel(rng)
+            w = shape_weights(k)
+            if len(w) < 3:
+                continue
+            n = len(w) + rng.choice([0, 1, 2, rng.randrange(0, 13)])
+            v = self.rand_signal(rng, n, floats=True)
+            valid = [i for i in range(n) if v[i] is not None]
+            if not valid or not domain_ok(w, v):
+                continue
+            sg = rng.choice(["inf", "inf", "-inf"])
+            where = rng.choice(["first", "first", "any", "two", "mixed"])
+            if where == "first":
+                v[valid[0]] = sg
+            elif where == "any":
+                v[rng.choice(valid)] = sg
+            elif where == "two":
+                v[valid[0]] = sg
+                v[rng.choice(valid)] = sg
+            else:
+                v[rng.choice(valid)] = "inf"
+                v[rng.choice(valid)] = "-inf"
+            out.append({"kind": "inff", "sig": v, "k": k, "sc": "f"})
+            made += 1
         # ---- weight lists with zero weights: judged where the valid weights have a positive sum
         made = 0
         while made < (300 if quick else 3000):
@@ -726,6 +841,15 @@ class P(Prop):
         if af_in in feats and rng.random() < 0.2:
             af_out = None        # third argument omitted: output into the input feature
         c = {"kind": "op", "x": sigs["x"], "y": sigs["y"], "z": sigs["z"], "feats": feats, "in": af_in, "out": af_out, "k": k, "sc": sc}
+        if featk and rng.random() < 0.5:
+            # the algebraic form of the same call: track.operate("out = in ! w") / ("out = in .* w"); without left-hand
+            # side the values are returned and the track is left as it was; a coordinate may be the left-hand side
+            c["expr"] = rng.choice(["!", ".*", " ! "])
+            r = rng.random()
+            if r < 0.2:
+                c["out"] = None
+            elif r < 0.4:
+                c["out"] = rng.choice(["x", "z", "y"])
         w = self.op_weights(c)
         if not domain_ok(w, dict(sigs, **feats)[af_in]):
             return None
@@ -851,7 +975,8 @@ class P(Prop):
         if kind == "opl":
             t["form"] = case["form"]
         if kind == "op":
-            t["output"] = "omitted" if case["out"] is None else ("input" if case["out"] == case["in"] else "other")
+            t["output"] = "omitted" if case["out"] is None else ("input" if case["out"] == case["in"] else "coordinate" if case["out"] in ("x", "y", "z") else "other")
+            t["entry"] = "algebraic " + case["expr"].strip() if case.get("expr") else "operator"
         if k["t"] == "user":
             t["user_types"] = "".join(sorted({e[0] for e in k["tbl"]}))
             t["edge_zero_int"] = bool(k["tbl"]) and k["tbl"][-1][1] == 0 and k["tbl"][-1][0] in ("i", "I", "b") or int(k["s"]) >= len(k["tbl"])
@@ -863,7 +988,28 @@ class P(Prop):
         if k["t"] == "list":
             t["window"] = len(k["w"])
             t["asymmetric"] = k["w"] != k["w"][::-1]
+        if kind != "badk":
+            t["dynamic_range"] = self.dynamic_range(case)
         return t
+
+    def dynamic_range(self, case):
+        """largest ratio between the magnitudes of two non-zero samples of one filtered signal, and where the largest sample is"""
+        best, where = 1.0, ""
+        try:
+            sigs = self.case_signals(case)
+        except KeyError:
+            return "n/a"
+        for s in sigs:
+            mags = [(abs(float(x)), i) for i, x in enumerate(s) if x is not None and x != 0]
+            if len(mags) < 2:
+                continue
+            r = max(mags)[0] / min(mags)[0]
+            if r > best:
+                first_valid = min(i for _, i in mags)
+                best, where = r, ("largest-first" if max(mags)[1] == first_valid else "largest-elsewhere")
+        if best < 1e4:
+            return "<1e4"
+        return (">=1e12 " if best >= 1e12 else ">=1e8 " if best >= 1e8 else ">=1e4 ") + where
 
     def step_degenerate(self, st):
         return len(st["x"]) == 0 or any(len(st[c]) and all(a is None for a in st[c]) for c in ("x", "y", "z"))
@@ -883,7 +1029,7 @@ class P(Prop):
             return bool(case["judge"]) and len(shape_weights(case["k"])) >= 3
         if len(self.kweights(case)) < 3:
             return False
-        sigs = [case["sig"]] if kind in ("feat", "zerow", "short") else [case["x"], case["y"], case["z"]]
+        sigs = [case["sig"]] if kind in ("feat", "zerow", "short", "inff") else [case["x"], case["y"], case["z"]]
         return any(len(set(x for x in s if x is not None)) > 1 for s in sigs)
 
     # ---------------------------------------------------------------- implementation
@@ -1037,7 +1183,7 @@ class P(Prop):
         kind = case["kind"]
         if kind == "sw":
             return {"window": self.window_of(case["k"])}
-        if kind in ("feat", "zeronorm", "short", "zerow"):
+        if kind in ("feat", "zeronorm", "short", "zerow", "inff"):
             v = case["sig"]
             t = self.mk_track([float(i) for i in range(len(v))])
             t.createAnalyticalFeature("a", [num(a) for a in v])
@@ -1052,11 +1198,14 @@ class P(Prop):
             for nm, v in case["feats"].items():
                 t.createAnalyticalFeature(nm, [num(a) for a in v])
             kern = self.mk_kernel(case["k"])
-            if case["out"] is None:
+            if case.get("expr"):
+                e = "%s%s%s" % (case["in"], case["expr"], case["k"]["name"])
+                ret = t.operate(e if case["out"] is None else "%s=%s" % (case["out"], e))
+            elif case["out"] is None:
                 ret = t.operate(self.Operator.FILTER, case["in"], kern)
             else:
                 ret = t.operate(self.Operator.FILTER, case["in"], kern, case["out"])
-            return {"ret": [canon(a) for a in ret], "sigs": self.read_track(t),
+            return {"ret": None if ret is None else [canon(a) for a in ret], "sigs": self.read_track(t),
                     "kafter": [canon(a) for a in kern] if isinstance(kern, list) else None,
                     "window": self.window_of(case["k"]), "state": self.globals_now()}
         if kind == "opl":
@@ -1180,7 +1329,7 @@ class P(Prop):
         kind, sc = case["kind"], case["sc"]
         if kind == "sw" or (kind == "badk" and "dims" not in case):
             return ["C15.sw %s %s" % (sc, self.kspec(sc, case["k"]))]
-        if kind in ("feat", "zeronorm", "short", "zerow"):
+        if kind in ("feat", "zeronorm", "short", "zerow", "inff"):
             k = case["k"]
             ls = ["C15.exec %s %s %s" % (sc, self.sig_tok(sc, case["sig"]), self.kspec(sc, k))]
             if self.needs_sw(k):
@@ -1188,6 +1337,8 @@ class P(Prop):
             return ls
         if kind == "op":
             k = case["k"]
+            if case.get("expr"):
+                return ["C15.opx %s %s %s %s %s" % (sc, case["in"], k["name"], "-" if case["out"] is None else case["out"], self.track_tok(sc, case))]
             if case["out"] is None:
                 ls = ["C15.opa %s one %s - %s %s" % (sc, case["in"], self.track_tok(sc, case), self.kspec(sc, k))]
             else:
@@ -1275,7 +1426,7 @@ class P(Prop):
             if r[0] != "ok":
                 return {"err": r[0]}
             return {"window": self.decode_window(case, case["k"], replies)}
-        if kind in ("feat", "zeronorm", "short", "zerow"):
+        if kind in ("feat", "zeronorm", "short", "zerow", "inff"):
             r = replies[0].split(" ")
             if r[0] != "ok":
                 return {"err": r[0]}
@@ -1288,7 +1439,7 @@ class P(Prop):
                 return {"err": r[0]}
             names = untok(r[3])
             sigs = [self.vals(sc, s) for s in untok(r[4], ";")]
-            return {"ret": self.vals(sc, r[2]), "sigs": dict(zip(names, sigs)), "kafter": None if r[1] == "none" else self.vals(sc, r[1]),
+            return {"ret": None if r[2] == "none" else self.vals(sc, r[2]), "sigs": dict(zip(names, sigs)), "kafter": None if r[1] == "none" else self.vals(sc, r[1]),
                     "window": self.decode_window(case, case["k"], replies), "state": self.decode_globals(self.PRISTINE_TOKEN)}
         if kind == "opl":
             r = replies[0].split(" ")
@@ -1437,6 +1588,13 @@ class P(Prop):
             return self.judge_error(case, out)
         if kind == "sw":
             return check_window(out["window"])
+        if kind == "inff":
+            w, fb, bad = self.weights_for(case["k"], out)
+            if bad:
+                return bad
+            if out["input_after"] != [canon(num(a)) for a in case["sig"]]:
+                return "the input feature was modified: %r" % out["input_after"]
+            return check_nonfinite(w, case["sig"], fb, out["out"], "feature")
         if kind in ("feat", "zerow", "short"):
             w, fb, bad = self.weights_for(case["k"], out)
             if bad:
@@ -1467,13 +1625,23 @@ class P(Prop):
             if bad:
                 return bad
             allsig = dict({"x": case["x"], "y": case["y"], "z": case["z"]}, **case["feats"])
+            if case.get("expr") and case["out"] is None:
+                # "in ! w" without left-hand side: the filtered values are returned, the track is as it was
+                bad = check_signal(w, allsig[case["in"]], fb, out["ret"], "returned list")
+                if bad:
+                    return bad
+                for nm in sorted(allsig):
+                    if out["sigs"].get(nm) != [canon(num(a)) for a in allsig[nm]]:
+                        return "%s was not to be filtered but changed: %r -> %r" % (nm, allsig.get(nm), out["sigs"].get(nm))
+                return None
             case = dict(case, out=case["out"] if case["out"] is not None else case["in"])
             bad = check_signal(w, allsig[case["in"]], fb, out["sigs"].get(case["out"]), "feature %s" % case["out"])
             if bad:
                 return bad
-            bad = check_signal(w, allsig[case["in"]], fb, out["ret"], "returned list")
-            if bad:
-                return bad
+            if not case.get("expr"):
+                bad = check_signal(w, allsig[case["in"]], fb, out["ret"], "returned list")
+                if bad:
+                    return bad
             for nm, v in allsig.items():
                 if nm != case["out"] and out["sigs"].get(nm) != [canon(num(a)) for a in v]:
                     return "%s was not to be filtered but changed: %r -> %r" % (nm, v, out["sigs"].get(nm))
@@ -1487,7 +1655,7 @@ class P(Prop):
 
     def case_signals(self, case):
         kind = case["kind"]
-        if kind in ("feat", "short", "zerow", "zeronorm"):
+        if kind in ("feat", "short", "zerow", "zeronorm", "inff"):
             return [case["sig"]]
         allsig = dict({"x": case["x"], "y": case["y"], "z": case["z"]}, **case.get("feats", {}))
         if kind == "op":
@@ -1537,7 +1705,7 @@ class P(Prop):
 
     # ---------------------------------------------------------------- shrinking / search
     def _sig_names(self, case):
-        return ["sig"] if case["kind"] in ("feat", "zeronorm", "short", "zerow") else ["x", "y", "z"]
+        return ["sig"] if case["kind"] in ("feat", "zeronorm", "short", "zerow", "inff") else ["x", "y", "z"]
 
     def shrink(self, case):
         kind = case["kind"]
@@ -1631,7 +1799,7 @@ class P(Prop):
             s = case[nm]
             for i in range(len(s)):
                 for nv in (0, 1):
-                    if s[i] != nv and (s[i] is None or abs(s[i]) > 1 or s[i] != int(s[i])):
+                    if s[i] != nv and not isinstance(s[i], str) and (s[i] is None or abs(s[i]) > 1 or s[i] != int(s[i])):
                         c = dict(case)
                         c[nm] = s[:i] + [nv] + s[i + 1:]
                         if self._in_domain(c) == self._in_domain(case):
@@ -1643,7 +1811,7 @@ class P(Prop):
             for i in range(len(w)):
                 if w[i] != 1:
                     yield dict(case, k={"t": "list", "w": w[:i] + [1] + w[i + 1:]})
-        if case.get("sc") == "f" and k["t"] in ("list", "int", "dirac", "user") + RATIONAL_KERNELS and kind != "smooth":
+        if case.get("sc") == "f" and k["t"] in ("list", "int", "dirac", "user") + RATIONAL_KERNELS and kind not in ("smooth", "inff"):
             yield dict(case, sc="r")
 
     def _in_domain(self, case):
@@ -1661,7 +1829,7 @@ class P(Prop):
         if k["t"] not in ("list", "int", "dirac", "feat") and support_of(k) < 1:
             return False
         w = self.kweights(dict(case, k=k))
-        if kind == "feat":
+        if kind in ("feat", "inff"):
             return domain_ok(w, case["sig"])
         if len(case["x"]) == 0:
             return False
@@ -1690,6 +1858,19 @@ class P(Prop):
                     continue
                 i = rng.randrange(len(s))
                 s[i] = rng.choice([None, 0, 1, rng.randrange(-50, 50)])
+                c[nm] = s
+            if self._in_domain(c):
+                yield c
+        # one sample of another order of magnitude (the first valid one, any one): the other windows must not notice
+        for _ in range(12):
+            c = dict(case)
+            for nm in self._sig_names(case):
+                s = list(case[nm])
+                valid = [i for i in range(len(s)) if s[i] is not None]
+                if not valid:
+                    continue
+                i = valid[0] if rng.random() < 0.6 else rng.choice(valid)
+                s[i] = rng.choice([1, -1]) * rng.choice(self.OUTLIERS)
                 c[nm] = s
             if self._in_domain(c):
                 yield c
